@@ -228,7 +228,17 @@ impl Engine for HrEngine {
                     let id = if t.starts_with('D') || t.starts_with('R') { *rng.pick(&["", "d"]) } else { *rng.pick(IDS) };
                     l.push(format!("load {t} {}", hexs(id)));
                 }
-                if static_mode { l.push("enhance".into()); }
+                if static_mode {
+                    // half of the time the switch to static mode finds a notified change that was not applied yet
+                    if rng.chance(1, 2) {
+                        let id = *rng.pick(IDS);
+                        let rank = IDS.iter().position(|x| x == &id).unwrap();
+                        l.push(format!("src.put {} {} {} 0", hexs(id), hexs("s"), hexs(&dag_script_k(rng, rank, true, true))));
+                        l.push(format!("src.put {} {} {} 0", hexs(id), hexs("a"), hexs(&format!("ok:{}", rng.range(50, 99)))));
+                        l.push(format!("notify {} {}", ev_file(id, "s"), ev_file(id, "a")));
+                    }
+                    l.push("enhance".into());
+                }
                 l.push("dump".into());
                 let steps = rng.range(3, if tier == Tier::Thorough { 14 } else { 8 });
                 for _ in 0..steps {
